@@ -1,3 +1,6 @@
+(* SNAPSHOT (frozen copy, taken for the Reset-equivalence proof EngineResetProofs.v) of
+   proofs/EngineSafetyExpand.v as of 2026-10-01 23:40, truncated before its final theorem
+   setAndExpand_spec (its content is re-proved, strengthened, in EngineResetHdr4.v). *)
 (* EngineSafetyExpand.v -- safety (no Go panic) and the sorting post-condition of
    setAndExpandLitLenHuffCode (with calcCodeForLit and expandLenCodes) of RModel/Engine.v.
 
